@@ -67,7 +67,7 @@ CHECKS.update({
         design="§6 C10",
     ),
     "C14": dict(
-        text="Lean 4 theorems: the statistics object handed to quantize() is unchanged; quantize() and calibrate() of a Quantizer reached by ANY history of recipe updates equal those of a fresh Quantizer that loads the exported recipe (via the reload theorem). Executed: random interleavings of update/load/calibrate/quantize/validate on two Quantizers sharing results with deep equality of all caller-owned arguments, sha256 vs fresh Quantizer, and fresh processes under other PYTHONHASHSEED values.",
+        text="Lean 4 theorems: the statistics object handed to quantize() is unchanged; quantize() and calibrate() of a Quantizer reached by ANY history of recipe updates equal those of a fresh Quantizer that loads the exported recipe (via the reload theorem); two histories of resumed calibration sessions over the same samples in the same order give quantize() the same statistics and hence the same result (quantize_after_sessions_depends_on_samples_only). Executed: random interleavings of update/load/calibrate/quantize/validate on two Quantizers sharing results with deep equality of all caller-owned arguments, sha256 vs fresh Quantizer, and fresh processes under other PYTHONHASHSEED values.",
         note="process-level determinism and hash-seed independence are CPython/runtime behaviour: executed, not proved; validate() is only called in-process on models the runtime survives in a child process (a few models make it abort, cf. finding D29)",
         design="§6 C14",
     ),
